@@ -195,7 +195,7 @@ Proof. exact block_error_is_first. Qed.
    NothingMatched at the identifier y (line 5), one of the listed sites; a program without start gets the
    NoStart error at Span::zero(0). *)
 Example C15_resolver_location_example :
-  resolve (mkFlags true true true false) RefineRefuted.w_if
+  resolve (mkFlags true true true false false) RefineRefuted.w_if
   = Err [mkRErr ENothingMatched (RefineRefuted.s_ 5)]
   /\ In (ENothingMatched, RefineRefuted.s_ 5) (err_sites RefineRefuted.w_if)
   /\ resolve gen_rflags (RefineRefuted.main_ []) = Err [mkRErr ENoStart (span_zero 0)].
